@@ -414,4 +414,32 @@ theorem subs_keys_arch {V' : Type} (T : Tree N V) :
       simp only [Tree.subs, List.map_append, hmap, e1, e2, e3, e4]
     | _ => simp [Tree.arch] at h
 
+/-! generic monotonicity lemmas for the read classification (lists as sets, Bool-valued tests) -/
+
+theorem contains_flatMap_mono {α : Type} [BEq α] [LawfulBEq α] {m m' : List Nat} (F : Nat → List α) (a : α)
+    (hsub : ∀ i ∈ m, i ∈ m') (h : (m.flatMap F).contains a = true) : (m'.flatMap F).contains a = true := by
+  simp only [List.contains_iff_mem, List.mem_flatMap] at h ⊢
+  obtain ⟨i, hi, ha⟩ := h
+  exact ⟨i, hsub i hi, ha⟩
+
+theorem any_filterMap_mono {β : Type} {m m' : List Nat} (R : Nat → Option β) (p : β → Bool)
+    (hsub : ∀ i ∈ m, i ∈ m') (h : (m.filterMap R).any p = true) : (m'.filterMap R).any p = true := by
+  simp only [List.any_eq_true, List.mem_filterMap] at h ⊢
+  obtain ⟨r, ⟨i, hi, hr⟩, hp⟩ := h
+  exact ⟨r, ⟨i, hsub i hi, hr⟩, hp⟩
+
+theorem contains_flatMap_filterMap_mono {α β : Type} [BEq α] [LawfulBEq α] {m m' : List Nat} (R : Nat → Option β)
+    (F : β → List α) (a : α) (hsub : ∀ i ∈ m, i ∈ m')
+    (h : ((m.filterMap R).flatMap F).contains a = true) : ((m'.filterMap R).flatMap F).contains a = true := by
+  simp only [List.contains_iff_mem, List.mem_flatMap, List.mem_filterMap] at h ⊢
+  obtain ⟨r, ⟨i, hi, hr⟩, ha⟩ := h
+  exact ⟨r, ⟨i, hsub i hi, hr⟩, ha⟩
+
+theorem any_contains_mono {γ : Type} {m m' : List Nat} (L : List γ) (f : γ → Nat) (g : γ → Bool)
+    (hsub : ∀ i ∈ m, i ∈ m') (h : (L.any fun e => m.contains (f e) && g e) = true) :
+    (L.any fun e => m'.contains (f e) && g e) = true := by
+  simp only [List.any_eq_true, Bool.and_eq_true, List.contains_iff_mem] at h ⊢
+  obtain ⟨e, he, hm, hg⟩ := h
+  exact ⟨e, he, hsub _ hm, hg⟩
+
 end Persist
